@@ -82,6 +82,8 @@ class SpecHub:
         self.acks_due: Dict[Any, int] = {}  # slot -> number of ACKs the property demands so far
         self.unspecified: List[str] = []  # notes about U-rules taken in the last round
         self.removed_log: List[Tuple] = []  # (slot, mod_id, name, logger, unique, pid) in removal order
+        self._closed_pending: List[bytes] = []
+        self._announcing = False
         self.refused: List[Any] = []
 
     # ---- environment ------------------------------------------------------------------------
@@ -275,10 +277,20 @@ class SpecHub:
         c.connected_at_removal = c.connected
         c.connected = False
         self.removed_log.append((c.slot, c.mod_id, c.name, int(c.logger), int(c.unique), c.pid))
-        p = self._client_payload(c)
-        self.forward(self._hdr(P.MT_CLIENT_CLOSED, len(p)), p)
         c.registered = False
         self.conns.remove(c)
+        # departures are announced one after the other: a removal that happens while a CLIENT_CLOSED is being delivered (the
+        # delivery uncovered another dead subscriber) is announced after that delivery, not inside it
+        self._closed_pending.append(self._client_payload(c))
+        if self._announcing:
+            return
+        self._announcing = True
+        try:
+            while self._closed_pending:
+                p = self._closed_pending.pop(0)
+                self.forward(self._hdr(P.MT_CLIENT_CLOSED, len(p)), p)
+        finally:
+            self._announcing = False
 
     def recipients(self, mt: int) -> List[SConn]:
         a = sorted((m for m in self.conns if mt in m.subs), key=lambda m: m.sock.hid)
